@@ -10,6 +10,7 @@ t0=$(date +%s)
 out=$(bin/vcheck -repo $REPO -prop $prop -tier $tier 2>&1); rc=$?
 t1=$(date +%s)
 git -C $REPO checkout -- .
+git -C /verif checkout -- evidence 2>/dev/null  # evidence files describe the unchanged tree only
 labels=$(echo "$out" | grep -E '^  harness=' | sed 's/  harness=\([^ ]*\) label=\([^ ]*\).*/\1\/\2/' | head -6 | tr '\n' ' ')
 python3 - "$dst" "$rc" "$((t1-t0))" "$labels" "$tier" <<'PY'
 import sys,json
